@@ -136,7 +136,8 @@ Definition lnk_split (case: list N) : option (N * list N * list packet * N) :=
                                  | Some (ps, []) => Some (link, gaps, ps, 0)
                                  (* trailing flags: bit 0 = the receiving node also transmits before polling (no effect in the model: sender and
                                     receiver are independent); serial port only: bit 1 = reads are interrupted (EINTR) inside frames, bit 2 = 'no data
-                                    yet' is reported as some other read failure than TimedOut (Ok(0), WouldBlock, ...) *)
+                                    yet' is reported as some other read failure than TimedOut (Ok(0), WouldBlock, ...); bit 3 = the receiver object has already
+                                    received 70000 packets (no effect in the model: a receiver is in its initial state after every delivered packet) *)
                                  | Some (ps, [fl]) => Some (link, gaps, ps, fl)
                                  | _ => None end
       | _ => None
